@@ -64,6 +64,9 @@ def instances(tier, seed):
         # {n} belongs to the call; a context block nested in it has no arguments of its own
         out.append(("core", dict(prog=[["call", k, [["check", "a {n}"], ["ctx", [["check", "a {n}"], ["observe"]], "return"],
                                                     ["call", "none", [["check", "a {n}"], ["observe"]], "return"], ["observe"]], "return"], ["observe"]])))
+    for k in KINDS:
+        out.append(("core", dict(prog=[["ctx", [["check", "a"], ["badcall", k], ["observe"], ["check", "a"]], "return"], ["observe"]])))
+        out.append(("core", dict(prog=[["call", "new-typeguard", [["check", "c"], ["badcall", k], ["observe"], ["check", "c"]], "return"], ["observe"]])))
     for k1, k2 in itertools.product(KINDS, repeat=2):
         for ex in ("return", "ValueError", "KeyboardInterrupt"):
             g = "core" if (tier == "thorough" or rng.random() < 0.25) else "ext"
@@ -93,7 +96,7 @@ ASSUMPTIONS = ["programs are enumerated/sampled selectors (enumerative residue);
                "generators: creation and first next() only; coroutines: creation and close()",
                "exceptions are caught immediately at the call site by the interpreter"]
 REQUIRED_LABELS = {"verdict", "bindings", "toplevel-stateless", "exit-class"}
-REQUIRED_WITNESS = {"exit-return", "exit-ValueError", "exit-KeyboardInterrupt", "exit-GeneratorExit",
+REQUIRED_WITNESS = {"exit-TypeError", "exit-return", "exit-ValueError", "exit-KeyboardInterrupt", "exit-GeneratorExit",
                     "exit-SystemExit", "gen", "coro"}
 BUDGET_S = {"quick": 150, "thorough": 1500}
 setup_worker = c01.setup_worker
@@ -234,6 +237,10 @@ def scenario(inst, V):
                     finally:
                         del stack[depth:]
                 swallow(docall, ex, t)
+            elif op[0] == "badcall":
+                # a call that does not bind to the signature: ordinary TypeError, no context touched
+                fn = get_fn(op[1], V.ARR)
+                swallow(lambda fn=fn: fn(), "TypeError", t)
             elif op[0] == "gen":
                 _, kind, body = op
                 fn = get_fn(kind, V.ARR, gen=True)
